@@ -365,6 +365,28 @@ def _classify_main(res, u, m):
         name = "%s::%s::%s" % (res["unit"], fn, kind)
         res["failures"].append({"obligation": name, "kind": kind, "function": fn, "where": where,
                                 "detail": callee, "rendered": d.get("rendered", "")[:3000]})
+    # a closure without contract that the verified tree did not have: Verus knows nothing about its result, so a failed
+    # obligation in that function is "needs contract", not a violation (see vf/closures.py)
+    try:
+        from . import closures as _cl
+        base = _cl.load().get(res["unit"], {})
+    except Exception:
+        base = {}
+    newcl = {f["name"]: f.get("closures_unannotated", 0) for f in u.functions
+             if f.get("closures_unannotated", 0) > base.get(f["name"], 0)}
+    if newcl:
+        keep = []
+        for f in res["failures"]:
+            if f.get("function") in newcl:
+                res["undecided"].append("obligation %s at %s fails in `%s`, which now contains %d closure(s) without contract "
+                                        "(verified tree: %d) - Verus knows nothing about their results: needs contract" % (
+                                            f["obligation"], f.get("where", ""), f["function"], newcl[f["function"]],
+                                            base.get(f["function"], 0)))
+            else:
+                keep.append(f)
+        if len(keep) != len(res["failures"]):
+            res["failures"] = keep
+            res["status"] = "undecided"
     if res["failures"] and res["status"] != "undecided":
         res["status"] = "violation"
     # every function under contract must have been sent to the solver
